@@ -131,8 +131,11 @@ _compression_write(xmpp_conn_t *conn, const void *buff, size_t len, int flush)
         return 0;
     do {
         ret = _try_compressed_write_to_network(conn, 0);
-        if (ret < 0) {
-            return ret;
+        if (ret < 0 || comp->compression.stream.avail_out == 0) {
+            /* the lower layer would block: tell the caller how much of its
+             * data deflate has taken so far, so that nothing is sent twice */
+            ptrdiff_t done = comp->compression.stream.next_in - (Bytef *)buff;
+            return (done > 0 || ret >= 0) ? (int)done : ret;
         }
 
         ret = deflate(&comp->compression.stream, flush);
